@@ -3,7 +3,7 @@
 # then restores /repo. Usage: tools/run_seeds.sh [seed-id ...]   (default: all under /verif/seeded)
 cd /verif
 ids="$@"; [ -z "$ids" ] && ids=$(ls seeded)
-mkdir -p /tmp/seedruns
+mkdir -p /tmp/seedruns; export VERIF_OUT=/tmp/seedruns/out
 for id in $ids; do
   d=seeded/$id; prop=${id%%-*}
   [ -f $d/patch.diff ] || continue
